@@ -40,7 +40,7 @@ fn openssl_spki_of_pkcs8(pkcs8: &[u8]) -> Option<Vec<u8>> {
 
 /// the same private key pushed through every loading entry point of the build
 #[cfg(not(feature = "nocrypto"))]
-fn loaded_keys(alg: &'static SignatureAlgorithm, pkcs8: &[u8]) -> Vec<(String, Result<KeyPair, Error>)> {
+pub fn loaded_keys(alg: &'static SignatureAlgorithm, pkcs8: &[u8]) -> Vec<(String, Result<KeyPair, Error>)> {
 	use rustls_pki_types::{PrivateKeyDer, PrivatePkcs8KeyDer};
 	let pem = pem::encode_config(&pem::Pem::new("PRIVATE KEY", pkcs8.to_vec()), pem::EncodeConfig::new().set_line_ending(pem::LineEnding::LF));
 	let p8 = PrivatePkcs8KeyDer::from(pkcs8.to_vec());
